@@ -13,7 +13,8 @@ CONSTANTS MaxOps, Base      \* Base: the draft class index (1..4) the operations
 
 DraftNo(i) == CASE i = 1 -> 3 [] i = 2 -> 4 [] i = 3 -> 6 [] i = 4 -> 7
 Init == /\ tcs = [i \in 1 .. 4 |-> StdTc(DraftNo(i))]
-        /\ cls = [i \in 1 .. 4 |-> [kw |-> {}, tc |-> i, idkw |-> IF i <= 2 THEN "id" ELSE "$id", meta |-> "std"]]
+        /\ cls = [i \in 1 .. 4 |-> [kw |-> {}, tc |-> i, idkw |-> IF i <= 2 THEN "id" ELSE "$id", meta |-> "std",
+                                        vt |-> CASE i = 1 -> 3 [] i = 2 -> 4 [] i = 3 -> 6 [] i = 4 -> 7]]
         /\ vals = <<>>
         /\ fcs = << [x \in {"email"} |-> "builtin"] >>
         /\ clsFormats = [x \in {"email"} |-> "builtin"]
@@ -29,6 +30,8 @@ Next ==
                                     \/ (\E t \in Mine(DOMAIN tcs) \ {cls[c].tc} : Extend(c, {}, t))
                                     \/ Create(c, "", "") \/ ("vnew" \notin DOMAIN byName /\ Create(c, "vnew", NewMetaId))     \* fresh ids only
                                     \/ NewValidator(c, FALSE) \/ NewValidator(c, TRUE)
+     \* extend() with nothing to change, of ANY class (also the other drafts'): one process, several parents
+     \/ \E c \in 1 .. 4 : c # Base /\ Extend(c, {}, 0)
      \/ \E f \in DOMAIN fcs : Checks(f, "tag", "even") \/ Checks(f, "email", "odd")
      \/ ClsChecks("tag", "odd") \/ ClsChecks("tag2", "even")
      \/ NewFormatChecker({}) \/ NewFormatChecker({"email", "tag"})
